@@ -267,7 +267,7 @@ def suite_field(ctx):
             warnings.simplefilter('ignore')
             base = fields.get_source_field(grid, mk(1.0), frequency=None).field
         for strength in [1.0, 3.5, 2+0.5j, np.array(2+0.5j), np.array(1.5),
-                         np.float64(0.25)]:
+                         np.float64(0.25), 2.0**-50, 2.0**40]:
             src = mk(strength)
             st0 = complex(np.asarray(src.strength).ravel()[0])
             for freq in [None, 1.0, 2.5, -1.0, -3.0]:
